@@ -199,3 +199,45 @@ def v_mul(a, b):
     nan = a._isnan or b._isnan or (a._isinf and b_zero) or (b._isinf and a_zero)
     inf = not nan and (a._isinf or b._isinf)
     return (nan, inf, s, ra._exp + rb._exp, ra._c * rb._c)
+
+
+# ---------------------------------------------------------------------------
+# sums and differences
+
+def bounds_rep(A):
+    """
+    The finite bounds are multiples of the quantum 2^exp ("largest representable number"), given by a
+    representation whose own exponent is not below exp.  (Needed so that __add__/__sub__ can renormalise the
+    bound at the quantum without `normalize` raising.)
+    """
+    return True if is_fl(A.exp) else (
+        (True if is_fl(A.pos_bound) else A.pos_bound._exp >= A.exp)
+        and (True if is_fl(A.neg_bound) else A.neg_bound._exp >= A.exp))
+
+
+def fin_member_clauses(v, A, g, tag):
+    """finite member (zero allowed) whose given representation is the witness"""
+    r = v._real
+    return {tag + '_fin': fin(v), tag + '_grid': g <= r._exp, tag + '_exp': exp_fits(r._exp, A),
+            tag + '_prec': prec_fits(r._c, A),
+            tag + '_le_pos': le_pos(r._s, r._exp, r._c, A, g), tag + '_ge_neg': ge_neg(r._s, r._exp, r._c, A, g)}
+
+
+def add_nan(a, b, negate_b):
+    sb = (not b._real._s) if negate_b else b._real._s
+    return a._isnan or b._isnan or (a._isinf and b._isinf and a._real._s != sb)
+
+
+def add_inf(a, b, negate_b):
+    return not add_nan(a, b, negate_b) and (a._isinf or b._isinf)
+
+
+def add_inf_sign(a, b, negate_b):
+    sb = (not b._real._s) if negate_b else b._real._s
+    return ite(a._isinf, a._real._s, sb)
+
+
+def add_neg_zero(a, b, negate_b):
+    """IEEE 754 6.3: a zero sum is -0 only when both addends are -0 (an exact cancellation x + (-x) is +0)"""
+    sb = (not b._real._s) if negate_b else b._real._s
+    return fin(a) and fin(b) and a._real._c == 0 and b._real._c == 0 and a._real._s and sb
